@@ -478,10 +478,10 @@ Definition decode_mN (l : list nat) : option mcaseN :=
    Names   tensorly.backend: 0 context (function, bound in tensorly/__init__.py)  1 trace (function, via __getattr__)
                              2 complex64 (attribute, via __getattr__)  3 int64 (attribute, bound in tensorly/__init__.py)
            tensorly.tenalg : 0 outer (function, bound at import in tensorly.decomposition._cp_power)  1 inner (function)
-   digits: 6, tenalg, nthreads, main_holds, descr_class, int64 bound at import, nsteps (two digits, high first), then per step
+   digits: 6, tenalg, nthreads, main_holds, int64 bound at import, nsteps (two digits, high first), then per step
            kind (0 set, 1 enter, 2 exit, 3 use_static_dispatch, 4 use_dynamic_dispatch, 5 capture, 6 call captured, 7 call),
            thread, a, b, c, outcome kind, outcome value
-             set/enter: a b c as above; exit: a = exceptional; capture/call: a = route (0 manager module, 1 top, 2 class),
+             set/enter: a b c as above; exit: a = exceptional; capture/call: a = route (0 manager module, 1 top, 2 class, 3 the alias a library module holds),
              b = name; call captured: a = index of the reference
              outcome kind 0: outcome code of a selection operation; 1: nothing; 2: executed by (token); 3: value of (token);
              4: AttributeError *)
@@ -510,7 +510,7 @@ Definition dobs_ok (tenalg : bool) (model : dobs) (kind tok : nat) : bool :=
   | _, _ => false
   end.
 
-Definition dec_route (a : nat) : route := match a with 0 => RMgr | 1 => RTop | _ => RClass end.
+Definition dec_route (a : nat) : route := match a with 0 => RMgr | 1 => RTop | 2 => RClass | _ => RLib end.
 
 Definition dec_dop (k t a b c : nat) : dop :=
   match k with
@@ -544,12 +544,12 @@ Fixpoint dcheck (tenalg : bool) (D : drules) (nc : ncfg) (d : dst) (es : list (d
 
 Definition agree_d (l : list nat) : bool :=
   match l with
-  | ta :: nth :: own :: dc :: tb :: nhi :: nlo :: r =>
+  | ta :: nth :: own :: tb :: nhi :: nlo :: r =>
       match dec_dsteps (nhi * 64 + nlo) r with
       | Some es =>
           let tenalg := dec_bool ta in
           let nc := nc_of (dec_bool tb) tenalg in
-          dcheck tenalg {| descr_class := dec_bool dc |} nc
+          dcheck tenalg tree_drules nc
                  (dinit nc (own_of (if dec_bool own then [(0, Named 0)] else []))) es
       | None => false
       end
@@ -558,14 +558,14 @@ Definition agree_d (l : list nat) : bool :=
 
 (* thread 1 captures tensorly.context; thread 2 selects harness instance 0 thread-locally; the captured closure called
    by thread 2 runs on Obj 0, called by a thread without selection on the default; class-level attribute access
-   raises; after use_static_dispatch by thread 2 the manager route is frozen on Obj 0 for everybody while the
+   answers with the accessing thread's backend; after use_static_dispatch by thread 2 the manager route is frozen on Obj 0 for everybody while the
    import-time binding still follows the caller; one altered outcome is noticed *)
 Example dispatch_case_example :
-  let good := [0;4;1;0;1; 0;9;
-               5;1;1;0;0; 1;0;   0;2;1;0;1; 0;0;   6;2;0;0;0; 2;8;   6;3;0;0;0; 2;2;   7;2;2;2;0; 4;0;
+  let good := [0;4;1;1; 0;9;
+               5;1;1;0;0; 1;0;   0;2;1;0;1; 0;0;   6;2;0;0;0; 2;8;   6;3;0;0;0; 2;2;   7;2;2;2;0; 3;8;
                3;2;0;0;0; 1;0;   7;3;0;0;0; 2;8;   7;3;1;0;0; 2;2;   7;3;0;2;0; 3;8] in
   let bad := firstn (length good - 1) good ++ [2] in
-  agree_d good = true /\ agree_d bad = false /\ agree_d (firstn 42 good) = false.
+  agree_d good = true /\ agree_d bad = false /\ agree_d (firstn 41 good) = false.
 Proof. vm_compute. repeat split. Qed.
 
 (* ---- the dispatch expressions extracted from the SOURCE (ast) by the harness (leading digit 7):
@@ -573,7 +573,7 @@ Proof. vm_compute. repeat split. Qed.
      reached through an instance (0 thread-local slot else shared default, 1 shared default only, 2 thread-local slot
      only, 3 the method captured when the closure was made);
      the descriptor's class test (0 `isinstance is None` - never true, 1 `instance is None`) and the look-up of its class
-     branch; descr_class as probed on the running code; is int64 in the import list of tensorly/__init__.py?;
+     branch; is int64 in the import list of tensorly/__init__.py?;
      the look-up use_static_dispatch evaluates ONCE for _functions / _attributes of BackendManager and of
      TenalgBackendManager (the model freezes the CALLING thread's current backend);
      what use_dynamic_dispatch installs for _functions / _attributes of BackendManager and of TenalgBackendManager
@@ -612,11 +612,10 @@ Fixpoint names_ok (nc : ncfg) (n : nat) (k : nat) (l : list nat) : option (list 
 
 Definition agree_dsrc (l : list nat) : bool :=
   match l with
-  | wrap :: curk :: getk :: instk :: clstest :: clsk :: dc :: tb :: sbf :: sba :: stf :: sta :: bf :: ba :: tf :: ta :: modget :: l' =>
+  | wrap :: curk :: getk :: instk :: clstest :: clsk :: tb :: sbf :: sba :: stf :: sta :: bf :: ba :: tf :: ta :: modget :: l' =>
       lk_ok wrap && lk_ok curk && lk_ok getk && lk_ok instk &&
       lk_ok sbf && lk_ok sba && lk_ok stf && lk_ok sta &&
-      (if Nat.eqb clstest 1 then lk_ok clsk else Nat.eqb clstest 0) &&
-      Bool.eqb (dec_bool dc) (Nat.eqb clstest 1) &&
+      Nat.eqb clstest 1 && lk_ok clsk &&
       Nat.eqb bf 0 && Nat.eqb ba 1 && Nat.eqb tf 0 && Nat.eqb ta 1 && Nat.eqb modget 1 &&
       match names_ok (nc_backend_of (dec_bool tb)) 0 4 l' with
       | Some l'' => match names_ok nc_tenalg 0 2 l'' with Some [] => true | _ => false end
@@ -625,20 +624,20 @@ Definition agree_dsrc (l : list nat) : bool :=
   | _ => false
   end.
 
-(* the current tree's source; the repaired descriptor; NOT accepted: a closure that reads only the shared default, a
+(* the current tree's source (descriptor repaired by 0b04404); NOT accepted: the descriptor before 0b04404 (class test on the builtin), a class branch reading only the shared default, a closure that reads only the shared default, a
    closure bound to the method it was made with, use_static_dispatch freezing the shared default, a function name bound like an attribute, a name table that differs from the model's (int64 bound or not must match the flag; trace bound at import) *)
 Example dsrc_example :
   let tail := [0;1;0;1;1; 1;0;1; 1;0;0; 0;1;0; 0;1;1; 1;0;1; 1;0;0] in
-  agree_dsrc ([0;0;0;0;0;0;0;1; 0;0;0;0] ++ tail) = true /\
-  agree_dsrc ([0;0;0;0;1;0;1;1; 0;0;0;0] ++ tail) = true /\
-  agree_dsrc ([1;0;0;0;0;0;0;1; 0;0;0;0] ++ tail) = false /\
-  agree_dsrc ([3;0;0;0;0;0;0;1; 0;0;0;0] ++ tail) = false /\
-  agree_dsrc ([0;0;0;0;1;0;0;1; 0;0;0;0] ++ tail) = false /\
-  agree_dsrc ([0;0;0;0;0;0;0;1; 1;0;0;0] ++ tail) = false /\
-  agree_dsrc ([0;0;0;0;0;0;0;1; 0;0;0;0] ++ [1;1;0;1;1; 1;0;1; 1;0;0; 0;1;0; 0;1;1; 1;0;1; 1;0;0]) = false /\
-  agree_dsrc ([0;0;0;0;0;0;0;1; 0;0;0;0] ++ [0;1;0;1;1; 1;0;1; 1;0;0; 0;1;0; 0;1;0; 1;0;1; 1;0;0]) = false /\
-  agree_dsrc ([0;0;0;0;0;0;0;0; 0;0;0;0] ++ [0;1;0;1;1; 1;0;1; 1;0;0; 0;1;0; 0;1;0; 1;0;1; 1;0;0]) = true /\
-  agree_dsrc ([0;0;0;0;0;0;0;1; 0;0;0;0] ++ [0;1;0;1;1; 1;0;1; 1;0;1; 0;1;0; 0;1;1; 1;0;1; 1;0;0]) = false.
+  agree_dsrc ([0;0;0;0;1;0;1; 0;0;0;0] ++ tail) = true /\
+  agree_dsrc ([0;0;0;0;0;0;1; 0;0;0;0] ++ tail) = false /\
+  agree_dsrc ([0;0;0;0;1;1;1; 0;0;0;0] ++ tail) = false /\
+  agree_dsrc ([1;0;0;0;1;0;1; 0;0;0;0] ++ tail) = false /\
+  agree_dsrc ([3;0;0;0;1;0;1; 0;0;0;0] ++ tail) = false /\
+  agree_dsrc ([0;0;0;0;1;0;1; 1;0;0;0] ++ tail) = false /\
+  agree_dsrc ([0;0;0;0;1;0;1; 0;0;0;0] ++ [1;1;0;1;1; 1;0;1; 1;0;0; 0;1;0; 0;1;1; 1;0;1; 1;0;0]) = false /\
+  agree_dsrc ([0;0;0;0;1;0;1; 0;0;0;0] ++ [0;1;0;1;1; 1;0;1; 1;0;0; 0;1;0; 0;1;0; 1;0;1; 1;0;0]) = false /\
+  agree_dsrc ([0;0;0;0;1;0;0; 0;0;0;0] ++ [0;1;0;1;1; 1;0;1; 1;0;0; 0;1;0; 0;1;0; 1;0;1; 1;0;0]) = true /\
+  agree_dsrc ([0;0;0;0;1;0;1; 0;0;0;0] ++ [0;1;0;1;1; 1;0;1; 1;0;1; 0;1;0; 0;1;1; 1;0;1; 1;0;0]) = false.
 Proof. vm_compute. repeat split. Qed.
 
 (* ---- initialize_backend (leading digit 8): `import tensorly` in a FRESH process with TENSORLY_BACKEND /
@@ -672,6 +671,146 @@ Example init_example :
   agree_init [0;5;0;0;0;0] = false /\ agree_init [0;4;0;3;3;3] = false /\ agree_init [1;6;1;0;0;0] = true.
 Proof. vm_compute. repeat split. Qed.
 
+(* ---- re-binding under concurrency (leading digit 9): one thread runs use_dynamic_dispatch() under settrace and is stopped
+   after k = 0, 1, ... source lines; another thread then looks the FIRST name of _functions up through the manager module.
+   digits: tenalg, does the loop of the CURRENT source contain the delattr? (ast), number of observations, then per k:
+   0 found / 1 AttributeError.  Model (rsched / rprog): without the delattr no look-up can miss (C17_micro_rebind_no_window);
+   with it there is a window - the sweep over k must find it *)
+Definition agree_rebind (l : list nat) : bool :=
+  match l with
+  | _ :: wd :: n :: obs =>
+      (length obs =? n) && negb (n =? 0) && forallb (fun o => o <? 2) obs &&
+      Bool.eqb (existsb (fun o => o =? 1) obs) (dec_bool wd)
+  | _ => false
+  end.
+
+Example rebind_example :
+  agree_rebind [0;1;4;0;0;1;0] = true /\ agree_rebind [0;0;4;0;0;0;0] = true /\
+  agree_rebind [0;0;4;0;1;0;0] = false /\ agree_rebind [0;1;3;0;0;0] = false.
+Proof. vm_compute. repeat split. Qed.
+
+(* ---- register_backend_method (leading digit 10): histories of selections, registrations and calls of ONE dispatched
+   name (tensorly.backend: digamma, tensorly.tenalg: higher_order_moment).  Classes = backend names: the stock classes
+   define the name natively (implementation 0), the harness classes (1, 2 / 2, 3) are subclasses of stock class 0 and
+   inherit, Obj 4 is an instance of a harness subclass (class 6) that provides NOTHING under the name.
+   digits: tenalg, nthreads, main_holds, nsteps (two digits), then per step kind (0 set, 1 enter, 2 exit, 3 register,
+   4 call), thread, a, b, c, outcome kind, o1, o2:  register: a = implementation number; call: outcome kind 2 = executed,
+   o1 = name code get_backend() returned in the calling thread, o2 = implementation that ran; 4 = AttributeError *)
+Definition hcfg_of (tenalg : bool) : hcfg :=
+  {| cparent := fun cl => if (if tenalg then (2 <=? cl) && (cl <=? 3) else (1 <=? cl) && (cl <=? 2)) || (cl =? 6)
+                          then Some 0 else None |}.
+Definition mt0 (tenalg : bool) : mtab :=
+  fun cl _ => if cl =? 6 then MMissing else match cparent (hcfg_of tenalg) cl with Some _ => MInherit | None => MHas 0 end.
+Definition cfg_reg (tenalg : bool) : cfg :=
+  {| known := known (cfg_of tenalg); cname := fun k => if k =? 4 then 6 else cname (cfg_of tenalg) k |}.
+
+Definition dec_rop (k t a b c : nat) : rop :=
+  match k with
+  | 0 => RSel (Set_ t (dec_sel a b) (dec_bool c))
+  | 1 => RSel (Enter t (dec_sel a b) (dec_bool c))
+  | 2 => RSel (Exit_ t (dec_bool a))
+  | 3 => RReg t 0 a
+  | _ => RCall t 0
+  end.
+
+Fixpoint dec_rsteps (n : nat) (l : list nat) : option (list (rop * nat * nat * nat)) :=
+  match n with
+  | O => match l with [] => Some [] | _ => None end
+  | S n' => match l with
+            | k :: t :: a :: b :: c :: ok :: o1 :: o2 :: l' =>
+                match dec_rsteps n' l' with Some es => Some ((dec_rop k t a b c, ok, o1, o2) :: es) | None => None end
+            | _ => None
+            end
+  end.
+
+Definition robs_ok (c : cfg) (model : robs) (ok o1 o2 : nat) : bool :=
+  match model, ok with
+  | RSelObs o, 0 => obs_eqb o (dec_out o1)
+  | RNone, 1 => true
+  | RRan (Some (b, v)), 2 => (name_of c b =? o1) && (v =? o2)
+  | RRan None, 4 => true
+  | _, _ => false
+  end.
+
+Fixpoint rcheck (tenalg : bool) (x : rst) (es : list (rop * nat * nat * nat)) : bool :=
+  match es with
+  | [] => true
+  | (o, ok, o1, o2) :: es' =>
+      let (x', ob) := rstep fixed_rules (hcfg_of tenalg) (cfg_reg tenalg) x o in
+      robs_ok (cfg_reg tenalg) ob ok o1 o2 && rcheck tenalg x' es'
+  end.
+
+Definition agree_reg (l : list nat) : bool :=
+  match l with
+  | ta :: nth :: own :: nhi :: nlo :: r =>
+      match dec_rsteps (nhi * 64 + nlo) r with
+      | Some es => rcheck (dec_bool ta) {| r_sel := init (own_of (if dec_bool own then [(0, Named 0)] else []));
+                                            r_mt := mt0 (dec_bool ta) |} es
+      | None => false
+      end
+  | _ => false
+  end.
+
+(* thread 1 registers implementation 1 while on stock numpy: thread 2 on harness instance 0 (subclass) gets it too; thread
+   2 registers implementation 2 on its own class: thread 1 keeps 1; on Obj 4 the call raises until something is
+   registered there *)
+Example reg_example :
+  let good := [0;3;1; 0;9;
+               3;1;1;0;0; 1;0;0;   0;2;1;0;1; 0;0;0;   4;2;0;0;0; 2;1;1;   3;2;2;0;0; 1;0;0;   4;2;0;0;0; 2;1;2;
+               4;1;0;0;0; 2;0;1;   0;1;1;4;1; 0;0;0;   4;1;0;0;0; 4;0;0;   4;0;0;0;0; 2;0;1] in
+  agree_reg good = true /\ agree_reg (firstn (length good - 1) good ++ [2]) = false /\
+  agree_reg (firstn 61 good ++ [2;6;0] ++ skipn 64 good) = false.
+Proof. vm_compute. repeat split. Qed.
+
+(* ---- dispatch histories over ALL dispatched names (leading digit 11): the name tables of the manager (_functions,
+   _attributes, the import list of tensorly/__init__.py) are read off the CURRENT source and shipped with the case; the
+   model runs with the ncfg built from them, and a sweep = one call per name and route.
+   digits: tenalg, nthreads, main_holds, number of names (two digits), one digit per name (1 function + 2 attribute + 4
+   bound at import), nsteps (two digits), then per step kind, thread, a, name (two digits), c, outcome kind, outcome value
+   (as for leading digit 6, with a two-digit name) *)
+Definition nc_table (tab : list nat) : ncfg :=
+  {| is_fun := fun n => Nat.odd (nth n tab 0);
+     is_attr := fun n => Nat.odd (Nat.div2 (nth n tab 0)) && negb (Nat.odd (nth n tab 0));
+     top_bound := fun n => Nat.odd (Nat.div2 (Nat.div2 (nth n tab 0))) |}.
+
+Fixpoint dec_dsteps2 (n : nat) (l : list nat) : option (list (dop * nat * nat)) :=
+  match n with
+  | O => match l with [] => Some [] | _ => None end
+  | S n' => match l with
+            | k :: t :: a :: bh :: bl :: c :: ok :: ov :: l' =>
+                match dec_dsteps2 n' l' with Some es => Some ((dec_dop k t a (bh * 64 + bl) c, ok, ov) :: es) | None => None end
+            | _ => None
+            end
+  end.
+
+Definition agree_dn (l : list nat) : bool :=
+  match l with
+  | ta :: nth :: own :: nnh :: nnl :: r =>
+      let nn := nnh * 64 + nnl in
+      let tab := firstn nn r in
+      match skipn nn r with
+      | nhi :: nlo :: r' =>
+          match dec_dsteps2 (nhi * 64 + nlo) r' with
+          | Some es =>
+              let tenalg := dec_bool ta in
+              let nc := nc_table tab in
+              (length tab =? nn) &&
+              dcheck tenalg tree_drules nc (dinit nc (own_of (if dec_bool own then [(0, Named 0)] else []))) es
+          | None => false
+          end
+      | _ => false
+      end
+  | _ => false
+  end.
+
+(* three names: 0 a function bound at import, 1 a function, 2 an attribute; thread 1 selects harness instance 1
+   thread-locally and sweeps: every name through every route is served by Obj 1; one wrong entry is noticed *)
+Example dn_example :
+  let good := [0;3;1; 0;3; 5;1;2; 0;6;
+               0;1;1;0;1;1; 0;0;   7;1;1;0;0;0; 2;9;   7;1;0;0;1;0; 2;9;   7;1;1;0;1;0; 2;9;   7;1;0;0;2;0; 3;9;   7;2;0;0;2;0; 3;0] in
+  agree_dn good = true /\ agree_dn (firstn 33 good ++ [8] ++ skipn 34 good) = false /\ agree_dn (firstn 50 good) = false.
+Proof. vm_compute. repeat split. Qed.
+
 Definition agree (c : case) : bool :=
   match digits (snd c) with
   | 3 :: l => match decode_m l with Some m => agree_m m | None => false end
@@ -680,6 +819,9 @@ Definition agree (c : case) : bool :=
   | 6 :: l => agree_d l
   | 7 :: l => agree_dsrc l
   | 8 :: l => agree_init l
+  | 9 :: l => agree_rebind l
+  | 10 :: l => agree_reg l
+  | 11 :: l => agree_dn l
   | _ => agree_hist (snd c)
   end.
 
